@@ -14,7 +14,10 @@
 //!   sa:new           SuffixArray::new (default configuration) + Algorithm::execute
 //!   esa:lcp esa:bwt  algorithms::suffix_array::EnhancedSuffixArray::{with_lcp, with_bwt}
 //!   csa:<preset>     compression::suffix_array::SuffixArrayCompressor (default, dict, realtime, large)
-//!   dict:<algo>      compression::dict_zip::SuffixArrayDictionary: sa_match_continuation, find_all_matches
+//!   dict:<variant>   compression::dict_zip::SuffixArrayDictionary: sa_match_continuation, da_match_max_length,
+//!                    find_longest_match, sa_equal_range, find_all_matches, dictionary_text, match_count;
+//!                    variants: adaptive | sais (array construction), min4 (min/max_pattern_length 4/8),
+//!                    serde (deserialize(serialize)), file (save_to_file / load_from_file), optimized (optimize_cache)
 //!
 //! modes: drive (default) | subjects.   --text <hex> : only this text (replay of one case).
 use serde_json::{json, Value};
@@ -38,6 +41,7 @@ fn subjects() -> Vec<&'static str> {
         "sab:dc3",
         "sab:ls",
         "sab:adaptive",
+        "sab:adaptive_t16",
         "sab:sais_noopt",
         "sab:sais_par",
         "sa:new",
@@ -49,6 +53,10 @@ fn subjects() -> Vec<&'static str> {
         "csa:large",
         "dict:adaptive",
         "dict:sais",
+        "dict:min4",
+        "dict:serde",
+        "dict:file",
+        "dict:optimized",
     ]
 }
 
@@ -71,6 +79,11 @@ fn sab_config(variant: &str) -> SuffixArrayConfig {
         c.use_parallel = true;
         c.parallel_threshold = 0;
     }
+    if variant == "adaptive_t16" {
+        // the strategy switch of select_algorithm moved down to 16 bytes: every branch of the decision
+        // (alphabet <= 4, repetition ratio > 0.7, entropy < 2.0, else) is reached by texts TLC judges fully
+        c.adaptive_threshold = 16;
+    }
     c
 }
 
@@ -78,6 +91,7 @@ fn sab_config(variant: &str) -> SuffixArrayConfig {
 fn algo_label(subject: &str) -> &'static str {
     match subject {
         "sab:sais" | "sab:sais_noopt" | "sab:sais_par" | "dict:sais" => "sais",
+        "sab:adaptive_t16" => "adaptive_t16",
         "csa:default" | "csa:dict" | "csa:realtime" | "csa:large" => "sais",
         "sab:divsufsort" => "divsufsort",
         "sab:dc3" => "dc3",
@@ -188,6 +202,51 @@ fn families(seed: u64, thorough: bool) -> Vec<Text> {
     for w in ["banana", "mississippi", "abracadabra", "banana$", "yabbadabbadoo", "aabaaabaaaab"] {
         push("word", w.as_bytes().to_vec());
     }
+    // Thue-Morse words (overlap-free, many equal-length repeats) incl. lengths around 16
+    let tm: Vec<u8> = (0u32..600).map(|i| if i.count_ones() % 2 == 0 { b'a' } else { b'b' }).collect();
+    for &n in &[2usize, 8, 15, 16, 17, 31, 32, 33, 64, 128, 255, 256, 300] {
+        push("thue-morse", tm[..n].to_vec());
+    }
+    push("thue-morse", tm[..64].iter().map(|&c| if c == b'a' { 0x00 } else { 0xff }).collect());
+    // lengths around the (lowered) adaptive threshold 16 for the repetitive families
+    for &n in &[15usize, 16, 17] {
+        push("a^n", vec![b'z'; n]);
+        push("(ab)^n", b"ab".iter().cycle().take(n).cloned().collect());
+        push("fib", fib_word(7, b'a', b'b')[..n].to_vec());
+        push("(abcde)^n", b"abcde".iter().cycle().take(n).cloned().collect());
+    }
+    // ---- the strategy switch of select_algorithm (judged fully with adaptive_threshold = 16):
+    // alphabet size 4 | 5 (<= 4 -> SA-IS)
+    for &n in &[16usize, 17, 40, 120] {
+        push("switch k=4", (0..n).map(|i| b"acgt"[(i * 7 + i / 3) % 4]).collect());
+        push("switch k=5", (0..n).map(|i| b"acgtn"[(i * 7 + i / 3) % 5]).collect());
+    }
+    // repetition ratio = (adjacent equal pairs) / n around 0.7 with 6 symbols: n = 100, r runs -> (100 - r) / 100
+    for &runs in &[29usize, 30, 31, 10, 60] {
+        let n = 100usize;
+        let mut v = vec![];
+        for r in 0..runs {
+            let len = n / runs + if r < n % runs { 1 } else { 0 };
+            v.extend(std::iter::repeat(b"uvwxyz"[r % 6]).take(len));
+        }
+        push("switch repetition", v);
+    }
+    // entropy around 2.0 with > 4 symbols and few adjacent repeats: x x s x x s ... (H = 1.58) | x s x s (H = 2.16)
+    push("switch entropy", (0..90).map(|i| if i % 3 == 2 { b"abcd"[(i / 3) % 4] } else { b'x' }).collect());
+    push("switch entropy", (0..90).map(|i| if i % 2 == 1 { b"abcd"[(i / 2) % 4] } else { b'x' }).collect());
+    push("switch entropy", (0..90).map(|i| if i % 2 == 1 { b"abcdefgh"[(i / 2) % 8] } else { b'x' }).collect());
+    // texts ending in their smallest / largest symbol, in 0x00 / 0xFF
+    for (tag, last) in [("min", 0usize), ("max", 1usize)] {
+        let mut rng2 = Rng::new(seed).derive(&format!("c12/ends/{tag}"));
+        for &n in &[6usize, 33, 150] {
+            let mut b: Vec<u8> = (0..n).map(|_| *rng2.pick(&[0x00u8, 0x01, 0x7f, 0x80, 0xfe, 0xff])).collect();
+            b.push(if last == 0 { 0x00 } else { 0xff });
+            push(&format!("ends in {tag}"), b);
+            let mut c: Vec<u8> = (0..n).map(|_| *rng2.pick(b"bcd")).collect();
+            c.push(if last == 0 { b'a' } else { b'e' });
+            push(&format!("ends in {tag}"), c);
+        }
+    }
     // random over alphabets 1..256
     let mut rng = Rng::new(seed).derive("c12/random");
     let alphas: &[usize] = &[1, 2, 3, 4, 5, 8, 16, 64, 128, 255, 256];
@@ -227,6 +286,11 @@ fn big_texts(seed: u64, thorough: bool) -> Vec<Text> {
     let mut rng = Rng::new(seed).derive("c12/big");
     let mut out = vec![];
     let sizes: &[usize] = if thorough { &[9_999, 10_000, 20_000, 50_000, 100_000] } else { &[9_999, 10_000, 20_000] };
+    // select_algorithm: > 50 000 -> DivSufSort (else SA-IS); build(): >= 100 000 -> parallel path; > 1 000 000 -> DivSufSort
+    let edges: &[usize] = if thorough { &[50_000, 50_001, 99_999, 100_000, 1_000_000, 1_000_001] } else { &[50_000, 50_001] };
+    for &n in edges {
+        out.push(Text { fam: "big edge k=256".into(), bytes: rng.bytes(n) });
+    }
     for &n in sizes {
         // k <= 4: Adaptive selects SA-IS; random bytes: SA-IS / DivSufSort by size; repetitive: Larsson-Sadakane
         let b: Vec<u8> = (0..n).map(|_| *rng.pick(&[b'a', b'c', b'g', b't'])).collect();
@@ -294,6 +358,13 @@ fn patterns(text: &[u8], maxlen: usize, cap: usize, rng: &mut Rng) -> Vec<Vec<u8
     for &c in [0x00u8, 0xff, 0x80, 0x7f].iter() {
         add(vec![c], &mut set);
     }
+    add(vec![0x00, 0x00], &mut set);
+    add(vec![0xff, 0xff], &mut set);
+    if n > 0 {
+        add(vec![text[n - 1], 0x00], &mut set);
+        add(vec![text[n - 1], 0xff], &mut set);
+        add(vec![text[0], 0xff], &mut set);
+    }
     if n > 0 {
         // longer than the remaining text at the end, and longer than the whole text
         let tail = &text[n.saturating_sub(2)..];
@@ -360,6 +431,7 @@ fn patterns_small(text: &[u8], map: [u8; 3]) -> Vec<Vec<u8>> {
 
 #[derive(Default, Clone)]
 struct Stat {
+    selected: BTreeMap<String, u64>,
     cases: u64,
     nontrivial: u64,
     refused: u64,
@@ -466,8 +538,30 @@ fn log_built(o: &mut Out, text: &[u8], r: Result<zipora::error::Result<SuffixArr
     }
 }
 
+fn algo_name(a: SuffixArrayAlgorithm) -> &'static str {
+    match a {
+        SuffixArrayAlgorithm::SAIS => "sais",
+        SuffixArrayAlgorithm::DivSufSort => "divsufsort",
+        SuffixArrayAlgorithm::DC3 => "dc3",
+        SuffixArrayAlgorithm::LarssonSadakane => "ls",
+        SuffixArrayAlgorithm::Adaptive => "adaptive",
+    }
+}
+
+/// which construction select_algorithm picks (coverage information only; the contract ignores it)
+fn note_selection(o: &mut Out, cfg: &SuffixArrayConfig, text: &[u8]) {
+    if text.len() >= 2 {
+        if let Ok(a) = guard(|| SuffixArrayBuilder::new(cfg.clone()).select_algorithm(text)) {
+            // keyed by the side of the adaptive threshold the text is on
+            let side = if text.len() >= cfg.adaptive_threshold { ">=thr" } else { "<thr" };
+            *o.st.selected.entry(format!("{}{}", algo_name(a), side)).or_insert(0) += 1;
+        }
+    }
+}
+
 fn case_sab(o: &mut Out, variant: &str, text: &[u8], pats: &[Vec<u8>]) -> bool {
     let cfg = sab_config(variant);
+    note_selection(o, &cfg, text);
     let built = guard(|| SuffixArrayBuilder::new(cfg.clone()).build(text));
     let Some(sa) = log_built(o, text, built) else { return false };
     probe_sa(o, text, &sa, pats);
@@ -484,6 +578,12 @@ fn case_sa_new(o: &mut Out, text: &[u8], pats: &[Vec<u8>]) -> bool {
     let again = guard(|| SuffixArrayBuilder::new(cfg.clone()).execute(&cfg, text.to_vec()));
     if let Some(sa2) = log_built(o, text, again) {
         probe_lcp(o, text, &sa2);
+    }
+    // SuffixArray::with_config, the twin of the builder, once per algorithm: each must return THE array
+    for v in ["sais", "divsufsort", "dc3", "ls", "adaptive"] {
+        let c = sab_config(v);
+        let r = guard(|| SuffixArray::with_config(text, &c));
+        let _ = log_built(o, text, r);
     }
     true
 }
@@ -594,17 +694,46 @@ fn case_csa(o: &mut Out, comp: &SuffixArrayCompressor, text: &[u8], pats: &[Vec<
     true
 }
 
-fn case_dict(o: &mut Out, variant: &str, text: &[u8], pats: &[Vec<u8>]) -> bool {
+fn dict_limits(variant: &str) -> (usize, usize) {
+    if variant == "min4" {
+        (4, 8)
+    } else {
+        (1, 1 << 20)
+    }
+}
+
+fn case_dict(o: &mut Out, variant: &str, text: &[u8], pats: &[Vec<u8>], scratch: &std::path::Path) -> bool {
+    let (minl, maxl) = dict_limits(variant);
     let cfg = SuffixArrayDictionaryConfig {
         min_frequency: 1,
         use_memory_pool: false,
-        min_pattern_length: 1,
-        max_pattern_length: 1 << 20,
+        min_pattern_length: minl,
+        max_pattern_length: maxl,
         dfa_cache_config: DfaCacheConfig::small_dictionary(text.len().max(1)),
         suffix_array_config: SuffixArrayConfig { algorithm: algo_of(variant), ..Default::default() },
         ..Default::default()
     };
-    let d = match guard(|| SuffixArrayDictionary::new(text, cfg)) {
+    let route = variant.to_string();
+    let path = scratch.join("c12-dict.bin");
+    let built = guard(|| -> zipora::error::Result<SuffixArrayDictionary> {
+        let mut d = SuffixArrayDictionary::new(text, cfg)?;
+        match route.as_str() {
+            "serde" => {
+                let bytes = d.serialize()?;
+                SuffixArrayDictionary::deserialize(&bytes)
+            }
+            "file" => {
+                d.save_to_file(&path)?;
+                SuffixArrayDictionary::load_from_file(&path)
+            }
+            "optimized" => {
+                d.optimize_cache()?;
+                Ok(d)
+            }
+            _ => Ok(d),
+        }
+    });
+    let mut d = match built {
         Err(m) => {
             o.panic("built", m);
             return false;
@@ -617,17 +746,26 @@ fn case_dict(o: &mut Out, variant: &str, text: &[u8], pats: &[Vec<u8>]) -> bool 
         }
         Ok(Ok(d)) => d,
     };
-    o.ev(json!({"op":"built","ok":true,"n":d.dictionary_size()}), 1);
     let n = d.dictionary_size();
+    o.ev(json!({"op":"built","ok":true,"n":n,"dtext":bytes_json(d.dictionary_text())}), 1 + n as u64);
     let nonempty: Vec<Vec<u8>> = pats.iter().filter(|p| !p.is_empty()).cloned().collect();
+    // ---- rank ranges: match continuation, the DFA-cache front end, match_count, ranked positions
     match guard(|| {
-        let a: Vec<Value> = nonempty
+        let mut a = vec![];
+        let mut mc = vec![];
+        for p in &nonempty {
+            let m = d.sa_match_continuation(0, n, 0, p);
+            mc.push(json!(m.match_count()));
+            a.push(json!([m.lo, m.hi, m.depth]));
+        }
+        let da: Vec<Value> = nonempty
             .iter()
             .map(|p| {
-                let m = d.sa_match_continuation(0, n, 0, p);
+                let m = d.da_match_max_length(p);
                 json!([m.lo, m.hi, m.depth])
             })
             .collect();
+        let e = d.da_match_max_length(&[]);
         let mut ok = true;
         let b: Vec<Value> = nonempty
             .iter()
@@ -639,17 +777,104 @@ fn case_dict(o: &mut Out, variant: &str, text: &[u8], pats: &[Vec<u8>]) -> bool 
                 }
             })
             .collect();
-        (a, b, ok)
+        (a, mc, da, json!([e.lo, e.hi, e.depth]), b, ok)
     }) {
-        Ok((a, b, ok)) => {
+        Ok((a, mc, da, da_empty, b, ok)) => {
+            let mut e = json!({"op":"search","pats":pats_json(&nonempty),"match":a,"mcount":mc,"da":da,
+                               "da_empty":da_empty,"minl":minl,"maxl":maxl});
             if ok {
-                o.ev(json!({"op":"search","pats":pats_json(&nonempty),"match":a,"ranked":b}), 2 * nonempty.len() as u64);
+                e["ranked"] = Value::Array(b);
             } else {
                 o.st.refused += 1;
-                o.ev(json!({"op":"search","pats":pats_json(&nonempty),"match":a}), nonempty.len() as u64);
             }
+            o.ev(e, 4 * nonempty.len() as u64);
         }
         Err(m) => o.panic("match", m),
+    }
+    // ---- find_longest_match(input, position, max): the pattern behind a junk prefix, at position 0, past the end
+    let mut inputs: Vec<Vec<u8>> = vec![];
+    let mut poss: Vec<usize> = vec![];
+    for (k, p) in nonempty.iter().enumerate() {
+        let junk = k % 3;
+        let mut inp = vec![0x2au8; junk];
+        inp.extend_from_slice(p);
+        inputs.push(inp);
+        poss.push(junk);
+    }
+    if let Some(p) = nonempty.first() {
+        inputs.push(p.clone());
+        poss.push(p.len()); // position == len: nothing to match
+        inputs.push(p.clone());
+        poss.push(p.len() + 3);
+    }
+    match guard(|| {
+        let mut res = vec![];
+        let mut ok = true;
+        for (inp, &pos) in inputs.iter().zip(poss.iter()) {
+            match d.find_longest_match(inp, pos, usize::MAX) {
+                Ok(Some(m)) => res.push(json!([m.length, m.dict_position])),
+                Ok(None) => res.push(json!([])),
+                Err(_) => {
+                    ok = false;
+                    res.push(json!([]))
+                }
+            }
+        }
+        (res, ok)
+    }) {
+        Ok((res, true)) => {
+            o.ev(json!({"op":"longest","inputs":pats_json(&inputs),"pos":usizes(&poss),"res":res,"minl":minl}), inputs.len() as u64)
+        }
+        Ok((_, false)) => o.st.refused += 1,
+        Err(m) => o.panic("longest", m),
+    }
+    // ---- sa_equal_range(lo, hi, |p|, ch): one refinement step from the range of a present prefix p
+    if n > 0 {
+        let mut prefixes: Vec<Vec<u8>> = vec![vec![]];
+        for p in nonempty.iter().take(10) {
+            if p.len() <= 3 {
+                prefixes.push(p.clone());
+            }
+        }
+        let mut chs: Vec<u8> = vec![];
+        for &c in text.iter().take(64).chain([0x00u8, 0xff, 0x80].iter()) {
+            for x in [c, c.wrapping_add(1), c.wrapping_sub(1)] {
+                if !chs.contains(&x) && chs.len() < 12 {
+                    chs.push(x);
+                }
+            }
+        }
+        for p in prefixes {
+            let r = guard(|| {
+                let m = if p.is_empty() { None } else { Some(d.sa_match_continuation(0, n, 0, &p)) };
+                let (lo, hi, depth) = match &m {
+                    None => (0, n, 0),
+                    Some(m) => (m.lo, m.hi, m.depth),
+                };
+                if depth != p.len() || lo >= hi {
+                    return None; // p does not occur: no range to refine
+                }
+                let res: Vec<Value> = chs
+                    .iter()
+                    .map(|&c| {
+                        let (a, b) = d.sa_equal_range(lo, hi, p.len(), c);
+                        json!([a, b])
+                    })
+                    .collect();
+                Some((lo, hi, res))
+            });
+            match r {
+                Ok(Some((lo, hi, res))) => o.ev(
+                    json!({"op":"eqr","p":bytes_json(&p),"lo":lo,"hi":hi,"chs":bytes_json(&chs),"res":res}),
+                    chs.len() as u64,
+                ),
+                Ok(None) => {}
+                Err(m) => {
+                    o.panic("eqr", m);
+                    break;
+                }
+            }
+        }
     }
     true
 }
@@ -657,6 +882,7 @@ fn case_dict(o: &mut Out, variant: &str, text: &[u8], pats: &[Vec<u8>]) -> bool 
 /// projection of a large case: permutation flag + number of adjacent rank pairs out of order
 fn case_big(o: &mut Out, variant: &str, text: &[u8]) -> bool {
     let cfg = sab_config(variant);
+    note_selection(o, &cfg, text);
     let n = text.len();
     match guard(|| SuffixArrayBuilder::new(cfg.clone()).build(text)) {
         Err(m) => {
@@ -787,6 +1013,12 @@ fn drive(a: &Args) {
                 if b.big && t.bytes.len() > 20_000 && (variant == "sais" || variant == "dc3") {
                     continue; // quadratic paths: keep the thorough tier within budget
                 }
+                if fam == "dict" && !matches!(variant, "adaptive" | "sais") && t.bytes.len() > 400 {
+                    continue; // the reloaded / reconfigured dictionaries run the same matcher code
+                }
+                if b.big && t.fam.starts_with("big edge") && variant != "adaptive" {
+                    continue; // the size thresholds belong to Adaptive only
+                }
                 if ci % b.per_run == 0 {
                     tr.reset(
                         DOMAIN,
@@ -825,7 +1057,7 @@ fn drive(a: &Args) {
                             false
                         }
                     },
-                    "dict" => case_dict(&mut o, variant, &t.bytes, &pats),
+                    "dict" => case_dict(&mut o, variant, &t.bytes, &pats, &a.out),
                     _ => false,
                 };
                 o.st.cases += 1;
@@ -843,7 +1075,7 @@ fn drive(a: &Args) {
             (
                 k.clone(),
                 json!({"runs": s.runs, "cases": s.cases, "nontrivial": s.nontrivial, "refused": s.refused,
-                       "panics": s.panics, "events": s.events, "answers": s.answers}),
+                       "panics": s.panics, "events": s.events, "answers": s.answers, "selected": s.selected}),
             )
         })
         .collect();
